@@ -43,13 +43,15 @@ PROPS = {
                         "MiniMcmcVerif.Gibbs.gibbs_sweep_invariant", "MiniMcmcVerif.HMC.verlet_reversible", "MiniMcmcVerif.HMC.hmc_step_result",
                         "MiniMcmcVerif.HMC.flow_balance", "MiniMcmcVerif.HMC.involutive_mh_invariant", "MiniMcmcVerif.HMC.invKernel_row_sum", "MiniMcmcVerif.HMC.involutive_of_reversible",
                         "MiniMcmcVerif.HMC.hmc_kernel_invariant", "MiniMcmcVerif.HMC.hmc_position_marginal_invariant", "MiniMcmcVerif.HMC.hmc_verlet_invariant",
-                        "MiniMcmcVerif.Gibbs.stale_not_invariant", "MiniMcmcVerif.NUTS.selection_uniform",
+                        "MiniMcmcVerif.Gibbs.stale_not_invariant", "MiniMcmcVerif.HMC.accept_region_le", "MiniMcmcVerif.HMC.hmc_accept_probability",
+                        "MiniMcmcVerif.NUTS.uniform_lt_probability", "MiniMcmcVerif.NUTS.neg_log_uniform_tail", "MiniMcmcVerif.NUTS.selection_uniform",
                         "MiniMcmcVerif.NUTS.buildTree_prime_admissible", "MiniMcmcVerif.Run.runChain_spec", "MiniMcmcVerif.Seeds.mh_chain_streams_distinct"],
         "timeout": 3000,
         "technique": "Lean 4 theorems for the logical content (kernels leave the target invariant given draws with the required laws) + calibrated deterministic-per-seed tests of the draws' laws and of stationarity",
         "level_text": "PARTIAL. Proved (Lean): the MH kernel satisfies detailed balance and leaves the target stationary and its rule accepts with probability min(1, e^r) under a uniform draw; a Gibbs sweep of full-conditional updates leaves any finite joint "
                       "invariant (and the stale-snapshot variant provably does not); the HMC proposal is L steps of a time-reversible integrator plus a Metropolis test on H, and a Metropolis step with a deterministic involutive proposal "
-                      "(flip o verlet^L is one) leaves every momentum-even non-negative weight invariant on every finite phase space, jointly and for the position marginal; the NUTS candidate is uniform among the admissible points of a subtree; run returns the iterates after burn-in; chains use "
+                      "(flip o verlet^L is one) leaves every momentum-even non-negative weight invariant on every finite phase space, jointly and for the position marginal; under a uniform draw the HMC test ln u <= dH accepts with probability min(1, e^dH), a NUTS test u < r succeeds with probability r clipped to [0,1], and "
+                      "-log U has the Exp(1) tail (so the coded slice level joint0 - Exp(1) has the law Algorithm 6 requires); the NUTS candidate is uniform among the admissible points of a subtree; run returns the iterates after burn-in; chains use "
                       "distinct streams. NOT proved, only validated: that the draws the real steps consume have the laws these theorems assume, and that long-run pooled estimates stay within Monte-Carlo error. Validation (deterministic for a given "
                       "seed): (a) hook-recorded draws — MH acceptance draws, proposal noise, HMC momenta and uniforms, NUTS momenta, Exp(1) slice draws, direction / adoption / selection uniforms, f32 and f64 — tested against N(0,1) / U[0,1) / Exp(1) "
                       "by mean, variance, Kolmogorov-Smirnov and lag-1 autocorrelation at 6-sigma / p~1e-9 thresholds; (b) 64 chains per sampler started in a random Gaussian target (so every correct kernel keeps them stationary): z-scores of E[x_i], "
